@@ -56,7 +56,7 @@ def gen_history(rng):
             ops.append(["pop"])
             depth -= 1
         elif r < 0.42:
-            ops.append(["set", rng.choice(NAMES), rng.random() < 0.7])
+            ops.append(["set", rng.choice(NAMES), rng.random() < 0.7, rng.random() < 0.12])     # [3]: value None
         elif r < 0.50:
             ops.append(["del", rng.choice(NAMES)])
         elif r < 0.55:
@@ -204,6 +204,8 @@ def _run_history(ops, raising, stats=None):
                         return v, dig.hexdigest()
                 elif k == "set":
                     val = next_val()
+                    if len(op) > 3 and op[3]:
+                        val = None      # an attribute that EXISTS with the value None
                     if op[2]:
                         with context.use_with_user_mode():
                             setattr(context, op[1], val)
